@@ -21,6 +21,16 @@ func init() {
 		Technique: "stateless model checking: preemption-bounded exhaustive schedule exploration of the real code under a cooperative scheduler, interval-linearizability oracle; separate free-running race-detector pass"})
 	reg(&spec{ID: "C14", Overlay: "full", Shards: [2]int{16, 16}, BudgetS: [2]int{60, 900}, Level: "model_checking", Rule: schedRule, Assume: schedAssume,
 		Technique: "stateless model checking: preemption-bounded exhaustive schedule exploration of Close against every API call under a cooperative scheduler"})
+	clAssume := []string{"2 nodes (quick) / 3 nodes (thorough), verifier.LogStore over raft.InmemStore; verifier goroutines run to quiescence after every event (ranges are not modified while verified)", "entry content is a function of (index, term); index-1 configuration entries are outside the alphabet (exempted by design)", "state de-duplication reads the middleware's private checksum/sumStartIdx through reflection; if the fields are missing no states are merged"}
+	clRule := "breadth-first explicit-state search over cluster event sequences (leader append normal/checkpoint, batch 1-2; replicate all/one entry, one batch/split; leadership change with conflicting suffix => follower DeleteRange + re-append; middleware restart; head truncation), each successor obtained by replaying the history on a fresh cluster of real verifier.LogStores plus one event; every delivered report is compared with the ground truth (entries the checkpointing leader held vs entries the node stores and reads back); a state is non-trivial when the event that produced it delivered a report"
+	reg(&spec{ID: "C16", Overlay: "full", Shards: [2]int{1, 1}, BudgetS: [2]int{60, 900}, Level: "model_checking", Rule: clRule, Assume: clAssume,
+		Technique: "explicit-state breadth-first search over cluster histories, transitions executed on the real verifier middleware"})
+	reg(&spec{ID: "C17", Overlay: "full", Shards: [2]int{16, 16}, BudgetS: [2]int{60, 900}, Level: "model_checking", Rule: clRule + "; then for every history whose last event delivered reports: every position (first, middle, checkpoint's predecessor) x every single-field mutation (term+-1, type, data bit flip/truncate/extend/nil, extensions bit flip/add, index+1, swapped neighbours) x {in flight into the node, at rest on the node}, requiring ErrChecksumMismatch and an 'in-flight' verdict only when the node was handed different bytes", Assume: clAssume,
+		Technique: "explicit-state search over cluster histories plus exhaustive single-field mutation menu on the real verifier middleware"})
+	reg(&spec{ID: "C18", Overlay: "full", Shards: [2]int{16, 16}, BudgetS: [2]int{60, 600}, Level: "model_checking",
+		Rule: "every operation sequence to the depth bound (appends normal/gapped/with checkpoint whose Extensions are empty, valid, foreign or too short, two checkpoints in one batch; every DeleteRange shape) through verifier.LogStore over a WAL and directly on a twin WAL, results and stored entries compared after every step, drop/skip accounting checked at the end; plus all schedules up to the preemption bound of a writer storing N checkpoints || runVerifier || a ReportFn blocked on a gate that opens at a scheduler-chosen point or never",
+		Assume: []string{"non-nil ReportFn; WAL on the simulated disk as the underlying store for the twin runs, raft.InmemStore for the schedule exploration"},
+		Technique: "bounded-exhaustive operation sequences against a twin store plus preemption-bounded exhaustive schedule exploration"})
 	reg(&spec{ID: "C19", Overlay: "full", Shards: [2]int{16, 16}, BudgetS: [2]int{45, 600}, Level: "model_checking",
 		Rule: "full product: source logs of every length up to the bound x every vector of entry sizes x first index x batchBytes x (source, destination) store pairing x cancellation at the k-th GetLog for every k, through the real CopyLogs; CopyStable with every subset of the standard keys set x extra keys x store pairing; destination compared field by field with the source; a case is non-trivial when the source is non-empty",
 		Assume: []string{"stores: the WAL on the simulated disk, raft.InmemStore, raft-boltdb/v2 on a scratch directory", "CopyStable from stores that report missing keys as errors is only driven with all keys set"},
